@@ -483,9 +483,10 @@ def run_group(chk, runner, wd, scen, iname, inp, B, limit, kinds=("full", "fail"
     rd0 = os.path.join(wd, "%s-%s-ref" % (scen, iname))
     ref = run_binary(rd0, scen, inp, "none")
     g = {"scen": scen, "input": iname, "ref": ref, "rundir0": rd0}
-    if ref.rc not in (0, 3) or (ref.rc == 3) != inp["warn"]:
+    if ref.rc not in (0, 3):
         g["broken"] = "fault-free run exits %d: %s" % (ref.rc, ref.stderr.decode("latin-1")[-300:])
         return g
+    # (an exit status that does not match the warnings printed is left to the specification, which sees this run as fault 'none')
     sc = build_scenario(scen, inp, ref, rd0, False)
     g["sc"] = sc
     faults = ["none"] + faults_for(sc, chk, kinds, limit)
